@@ -60,7 +60,7 @@ pub fn guarded<T>(f: impl FnOnce() -> T) -> Result<T, String> {
     })
 }
 
-pub fn quiet_panics() { std::panic::set_hook(Box::new(|_| {})); }
+pub fn quiet_panics() { if std::env::var("YV_LOUD_PANICS").is_err() { std::panic::set_hook(Box::new(|_| {})); } }
 
 pub fn summary(kind: &str, v: Value) { println!("YV-SUMMARY {} {}", kind, v); }
 pub fn mismatch(v: Value) { println!("YV-MISMATCH {}", v); }
